@@ -25,6 +25,7 @@ def WordUnit.pchars : WordUnit → Option (List AttrChar)
   | .unq u => u.pchars
   | .sq s => some ([quoteChar '\''] ++ s.map quotedLit ++ [quoteChar '\''])
   | .dsq s => some ([quoteChar '$', quoteChar '\''] ++ s.map quotedLit ++ [quoteChar '\''])
+  | .tilde _ _ => none
   | .dq t => t.pchars.map quoteField
 
 def Word.pchars : Word → Option (List AttrChar)
@@ -139,6 +140,7 @@ theorem wordUnit_plain (u : WordUnit) (s : List Char) (h : u.plain = some s) :
   | dsq q =>
     simp only [WordUnit.plain, Option.some.injEq] at h; subst h
     refine ⟨_, rfl, quoted_string_good [quoteChar '$', quoteChar '\''] q (by simp [quoteChar]), by simp⟩
+  | tilde n sl => simp [WordUnit.plain] at h
   | dq t =>
     simp only [WordUnit.plain] at h
     obtain ⟨ct, hct, gt⟩ := text_plain t s h
@@ -210,6 +212,7 @@ theorem posixWordUnit_pchars (env : Env) (ws : Bool) (u : WordUnit) (cs : List A
   | unq t => exact posixTextUnit_pchars env ws t cs h
   | sq s => simp only [WordUnit.pchars, Option.some.injEq] at h; subst h; rfl
   | dsq s => simp only [WordUnit.pchars, Option.some.injEq] at h; subst h; rfl
+  | tilde n sl => simp [WordUnit.pchars] at h
   | dq t =>
     simp only [WordUnit.pchars, Option.map_eq_some_iff] at h
     obtain ⟨ct, hct, rfl⟩ := h
@@ -249,5 +252,28 @@ theorem posixWord_pchars (env : Env) (ws : Bool) (u : WordUnit) (w : Word) (cs :
       simp only [hu, hw, Option.some.injEq] at h; subst h
       simp only [posixWord, posixWordUnit_pchars env ws u cu hu]
       exact posixWordGo_pchars env ws w cw cu hw
+
+/-! tilde expansion -/
+
+/-- the attributed characters of a tilde expansion: never split (no soft-expansion character), never empty, and
+    their quote removal is the text -/
+theorem posixTilde_facts (env : Env) (name : List Char) (slash : Bool) :
+    (∀ c ∈ posixTilde env name slash, c.origin = .hardExpansion) ∧ posixTilde env name slash ≠ [] ∧
+      removeQuotesAndStrip (posixTilde env name slash) = tildeText env name slash := by
+  unfold posixTilde
+  by_cases h : tildeText env name slash = []
+  · simp [h, emptyPathnameMark, removeQuotesAndStrip, skipQuotes, strip]
+  · simp only [h, if_false]
+    refine ⟨?_, by simpa using h, ?_⟩
+    · intro c hc
+      simp only [List.mem_map] at hc
+      obtain ⟨d, _, rfl⟩ := hc
+      rfl
+    · generalize tildeText env name slash = t
+      induction t with
+      | nil => rfl
+      | cons c t ih =>
+        simp only [removeQuotesAndStrip] at ih
+        simp [removeQuotesAndStrip, skipQuotes, strip, protectedChar, ih]
 
 end YashModel.Expansion
